@@ -32,6 +32,7 @@ def families(tier):
     mp = ['in/x', 'in', 'in/y', 'o', 'o/d', 'o/d/g', 'o/f', 'o/z']
     q = [
         {'name': 'A2a', 'params': {'kinds': KINDS_SMALL, 'mut_paths': mp}, 'weight': 2},
+        {'name': 'A2a', 'params': {'kinds': ['list_dir', 'walk'], 'roles': ['in', 'o'], 'mut_paths': [], 'hist': 'BB', 'perm': True}, 'weight': 1},
         {'name': 'A3', 'params': {'kinds': ['is_file', 'read_m'], 'roles': ['in/x'], 'targets': ['o/d/g'],
                                   'modes': ['ok', 'raise_after'], 'mut_paths': mp}, 'weight': 3},
         {'name': 'A4', 'params': {'kinds': ['is_dir', 'list_dir'], 'roles': ['o'], 'targets': ['o/d/g'],
@@ -101,7 +102,7 @@ def harness(eng, fam, P):
     bodies = skeleton(eng, fam, P)
     prog = Program(eng, bodies[0])
     eng.path_info['program'] = show(bodies[0])
-    w = World(eng, P.get('universe', U7), sandbox=getattr(eng, 'sandbox', None))
+    w = World(eng, P.get('universe', U7), sandbox=getattr(eng, 'sandbox', None), perm_listdir=P.get('perm'))
     bf_path = {f[0]: w.p(f[2]) for f in prog.functions if f[1] == 'BF'}
     hist = P.get('hist', 'BMBBB')
     try:
